@@ -51,8 +51,12 @@ def rule_function_construction(ctx, rep):
     where = ctx.path(PF)
     programs = {"dispatcher": DISPATCH, "loop then call": LOOPY}
     for k in ("diamond", "subroutine called twice", "nested subroutines", "bz to the next line", "dead code in a subroutine region",
-              "switch with repeated label", "return point that is a jump target", "comments and blank lines", "callsub as last instruction"):
+              "switch with repeated label", "return point that is a jump target", "comments and blank lines", "callsub as last instruction",
+              "mutual recursion", "recursive subroutine"):
         programs[k] = SHAPES[k]
+    # a subroutine reached through two callers (diamond in the call graph) is included once; an uncalled one not at all
+    programs["shared callee of two subroutines"] = ("#pragma version 6\ncallsub f\ncallsub g\nint 1\nreturn\nf:\ncallsub h\nretsub\ng:\ncallsub h\ncallsub f\nretsub\n"
+                                                     "h:\ntxn Amount\npop\nretsub\nunused:\nretsub\n")
     ERR = w.cls("tealer.teal.instructions.instructions", "TealerCustomErrInstruction")
     n = 0
     for name, src in programs.items():
@@ -95,6 +99,7 @@ def rule_function_construction(ctx, rep):
         shared = all(id(b) == before["ident"].get(w.getattr(b, "idx")) for b in fblocks if not any(b is m for m in fmain_blocks))
         rep.check(shared, rule, f"{name}: subroutine blocks are shared", where, "a subroutine block of the function is not the contract's object", "shared")
         want_all = sorted(before["main"] + [i for s in used for i in before["subs"][s]])
+        rep.check(len(fblocks) == len({id(b) for b in fblocks}), rule, f"{name}: no block listed twice", where, len(fblocks), len({id(b) for b in fblocks}))
         rep.check(sorted(w.getattr(b, "idx") for b in fblocks) == want_all, rule, f"{name}: function blocks", where,
                   sorted(w.getattr(b, "idx") for b in fblocks), want_all)
         rep.check(w.getattr(w.getattr(fn, "entry"), "idx") == 0 and all(w.getattr(b, "subroutine") is fmain for b in fmain_blocks), rule,
